@@ -27,8 +27,8 @@ import itertools, struct, ast, inspect, textwrap
 import bitstring.bits, bitstring.bitarray_, bitstring.bitstore
 
 FUNCTIONAL = True
-LEVEL_TEXT = ("Lean theorems about a function-by-function transcription of the lsb0 code paths (indices, offset_slice_indices_lsb0, the *_lsb0 BitStore methods, _find_lsb0/_rfind_lsb0, the reverse chunk scan of _findall_lsb0 with the chunk increment as a parameter >= 1, _append_lsb0, the swapped rol/ror entries, _replace's list reversal, pack's token reversal, the two method tables): for every content, every length and every position argument the lsb0 result equals reverse(msb0 operation on the reversed operands) wherever the code is right (all positive-step get/del/set slices with a non-inverted range, index get/set/del/invert, find/rfind/findall without bytealigned, startswith, endswith, cut, replace, insert, overwrite, append, prepend, ranged reverse, byteswap, rol/ror, reads), shifts and whole-value interpretations do not depend on the mode, and set_lsb0(False) restores every rebound attribute after any toggle sequence. The deviant regions (negative steps, inverted empty step-1 assignment, bytealigned searches, count with alignment, set with a range) are transcribed as they are, excluded by named decidable regions and witnessed by decided examples. Correspondence: every operation on lengths 0..12 exhaustive over index arguments, 8 000-40 000-bit data with patterns planted around multiples of 8192, toggle histories.")
-LEVEL_NOTE = ("Trusted: Lean kernel (+propext, Classical.choice, Quot.sound); bitarray's slicing/search modelled as Python list operations (checked against str semantics on every case by the oracle); the hand transcription is tied to the code only by the correspondence run. Known findings on the unchanged tree are listed in known_findings.d/C12.json.")
+LEVEL_TEXT = ("Lean theorems about a function-by-function transcription of the lsb0 code paths (offset_slice_indices_lsb0, the *_lsb0 BitStore methods, _find_lsb0/_rfind_lsb0, the reverse chunk scan of _findall_lsb0 with the chunk increment as a parameter >= 1, _append_lsb0, the swapped rol/ror entries, _replace's list reversal, pack's token reversal, the two method tables): for every content, every length and every position argument the lsb0 result equals reverse(msb0 operation on the reversed operands) - get/del/set slices for every start/stop/step (negative steps, empty and inverted ranges, step 0), index get/set/del, invert, set (incl. ranges), all/any, find/rfind without bytealigned, findall and replace for every window, count and alignment flag and every data length (findall_lsb0_chunks_eq holds for every chunk increment), startswith, endswith, cut, insert, overwrite, append, prepend, ranged reverse, byteswap, rol/ror (range mirrored, direction kept), reads/unpack/pack order; shifts and whole-value interpretations do not depend on the mode; set_lsb0(v) gives the same bindings after any toggle history. One deviant region (find/rfind with bytealigned=True) is transcribed as it is, excluded by the decidable region alignedFind and witnessed by a decided example. Correspondence: every operation on lengths 0..12 exhaustive over index arguments, 8 000-40 000-bit data with patterns planted around multiples of 8192, toggle histories, msb0 behaviour re-checked after switching the option off on every case.")
+LEVEL_NOTE = ("Trusted: Lean kernel (+propext, Classical.choice, Quot.sound); bitarray's slicing/search modelled as Python list operations (checked against str semantics on every case by the oracle); the hand transcription is tied to the code only by the correspondence run. Known finding on the current tree: lsb0 find/rfind with bytealigned=True (known_findings.d/C12.json).")
 TECHNIQUE = "Lean 4 proof (index-mirror arithmetic, search mirror, chunked-scan loop invariant, method-table closure) + exhaustive small-domain and chunk-boundary correspondence"
 
 R = lambda s: s[::-1]
@@ -811,58 +811,12 @@ def _f(line):
     return f[1], (unwire(f[3]) if len(f) > 3 else ""), f[4:]
 
 
-def _neg_step(line):
-    op, s, a = _f(line)
-    return op in ("getslice", "delslice", "setslice", "setsliceint") and a[2] != "None" and int(a[2]) < 0
-
-
-def _inverted_assign(line):
-    op, s, a = _f(line)
-    if op not in ("setslice", "setsliceint") or a[2] not in ("None", "1"):
-        return False
-    st, e, _ = slice(_opt(a[0]), _opt(a[1]), 1).indices(len(s))
-    return e < st
-
-
 def _aligned_find(line):
     op, s, a = _f(line)
     return op in ("find", "rfind") and a[3] == "1"
 
 
-def _count_aligned(line):
-    op, s, a = _f(line)
-    return op == "findall" and a[4] == "1" and a[3] != "None"
-
-
-def _set_range(line):
-    """a range that `set` writes as one slice: non-empty, first and last element valid non-negative indices"""
-    op, s, a = _f(line)
-    n = len(s)
-    if op == "set" and a[1].startswith("r"):
-        x, y, c = _posspec(a[1])[1]
-        r = range(x, y, c) if c else range(0)
-    elif op == "setsliceint" and a[2] not in ("None", "1", "-1", "0") and a[3] in ("0", "1"):
-        r = range(*slice(_opt(a[0]), _opt(a[1]), int(a[2])).indices(n))
-    else:
-        return False
-    return len(r) > 0 and 0 <= r[0] < n and 0 <= r[-1] < n
-
-
-def _multi_chunk(line):
-    op, s, a = _f(line)
-    if op not in ("findall", "replace"):
-        return False
-    t = unwire(a[0])
-    st, e = (a[1], a[2]) if op == "findall" else (a[2], a[3])
-    try:
-        x, y = _validate(len(s), _opt(st), _opt(e))
-    except RefErr:
-        return False
-    return y - x > max(8192, 80 * len(t)) + len(t)
-
-
-REGIONS = {"negStep": _neg_step, "invertedAssign": _inverted_assign, "alignedFind": _aligned_find,
-           "countAligned": _count_aligned, "setRange": _set_range, "multiChunk": _multi_chunk}
+REGIONS = {"alignedFind": _aligned_find}
 
 
 def in_known_region(line):
@@ -1162,9 +1116,22 @@ def gen_chunks(rng, tier):
                     places.add(n - (k * inc + d) - m)        # … and from the right (the scan starts at the right)
         for _ in range(rng.randint(0, 6)):
             places.add(rng.randint(0, n))
-        s = _plant(rng, n, t, sorted(places))
         a = rng.choice([None, None, 0, 1, m, 8, rng.randint(0, n // 2)])
         b = rng.choice([None, None, n, n - 1, n - m, -8, rng.randint(n // 2, n)])
+        # matches starting / ending exactly at (and one bit off) the borders of the windows the scan uses today:
+        # [pos, hi) with pos = max(s0, hi - inc - m), next hi = pos + m - 1, in stored coordinates
+        lo_ = 0 if a is None else a
+        hi_ = n if b is None else (b + n if b < 0 else b)
+        s0, hi = n - hi_, n - lo_
+        for _k in range(8):
+            pos = max(s0, hi - inc - m)
+            for q in (pos - 1, pos, pos + 1, hi - m - 1, hi - m, hi - m + 1):
+                if rng.random() < 0.6:
+                    places.add(q)
+            if pos == s0:
+                break
+            hi = pos + m - 1
+        s = _plant(rng, n, t, sorted(places))
         cls = _acls(rng)
         yield L("findall", cls, s, wire(t), a, b, rng.choice([None, None, None, 1, 3, 50]), 0)
         if it % 4 == 0:
@@ -1191,8 +1158,8 @@ SEQ_VOCAB = ["ins", "ovw", "app", "pre", "del", "set", "inv", "rol", "ror", "rev
 
 
 def gen_seq(rng, tier):
-    """histories on one object with the option toggled between the calls; every step stays outside the regions
-    of the known findings (the state is tracked with the plain-Python reference)"""
+    """histories on one object with the option toggled between the calls (the state is tracked with the
+    plain-Python reference so that most steps are valid)"""
     big = tier != "quick"
     for _ in range(6000 if big else 1500):
         n = rng.randint(0, 12)
@@ -1209,15 +1176,9 @@ def gen_seq(rng, tier):
             elif op in ("app", "pre"):
                 a = [wire(v)]
             elif op == "del":
-                a = [sv(p()), sv(p()), rng.choice(["None", "1", "2"])]
+                a = [sv(p()), sv(p()), rng.choice(["None", "1", "2", "-1", "-2"])]
             elif op == "set":
                 a = [sv(p()), sv(p()), "None", wire(v)]
-                st, e, _ = slice(_opt(a[0]), _opt(a[1]), 1).indices(k)
-                if e < st:
-                    a[0], a[1] = a[1], a[0]
-                    st, e, _ = slice(_opt(a[0]), _opt(a[1]), 1).indices(k)
-                    if e < st:
-                        continue
             elif op in ("inv", "idx"):
                 a = [str(p())]
             elif op in ("rol", "ror"):
@@ -1228,7 +1189,7 @@ def gen_seq(rng, tier):
             elif op == "rev":
                 a = [sv(p()), sv(p())]
             elif op == "get":
-                a = [sv(rng.choice([None, p()])), sv(rng.choice([None, p()])), rng.choice(["None", "1", "2", "3"])]
+                a = [sv(rng.choice([None, p()])), sv(rng.choice([None, p()])), rng.choice(["None", "1", "2", "3", "-1", "-2"])]
             else:
                 a = [wire(rand_bits(rng, rng.randint(1, 3)))]
             steps.append(":".join([m, op] + a))
